@@ -43,6 +43,55 @@ def compact(lines):
     return out
 
 
+def judge(run, pid, tf, rep):
+    """Turn the violations and divergences of a validated trace file into VIOLATION / KNOWN-FINDING / DIVERGENCE records."""
+    seen = set()
+    for v in sorted(rep["viol"], key=lambda v: (v["trace"], v["line"])):
+        if v["prop"] not in PROPS[pid]:
+            continue
+        key = (v["prop"], v["tag"], v["trace"])
+        if key in seen:
+            continue
+        seen.add(key)
+        tr = trace_of(tf, v["trace"])
+        first = next(j for j, l in enumerate(open(tf)) if '"ev":"Reset"' in l and json.loads(l)["trace"] == v["trace"])
+        sig = {"prop": v["prop"], "tag": v["tag"], "layer": "policy"}
+        run.add_violation(v["prop"], "trace %d line %d%s: %s" % (v["trace"], v["line"], (" [" + v["tag"] + "]") if v["tag"] else "", json.dumps(v["detail"])[:200]),
+                          {"property": pid, "predicate": v["prop"], "tag": v["tag"], "detail": v["detail"], "line_in_trace": v["line"] - first,
+                           "history": compact(tr[: v["line"] - first]), "trace": tr[: v["line"] - first],
+                           "how": "recorded from the real pkg/policy PolicyManager by harness/cmd/poldrive over the strict kernel model; "
+                                  "re-validate with lib/tv.sh Trace_NetPol trace_netpol.cfg <file with the `trace` lines>"}, sig)
+    for d in rep["div"]:
+        run.divergences.append({"layer": "policy", "trace": d["trace"], "line": d["line"], "ev": d["ev"], "obj": d.get("obj"), "why": d.get("why")})
+
+
+def replay_model_behaviours(run, pid):
+    """Behaviours of MC_PolicyManager (counterexamples of the attack invariants: shortest histories into each known shape) replayed
+    on the real PolicyManager; the recorded execution is validated and judged like any other."""
+    import glob
+    scheds = []
+    for f in sorted(glob.glob(os.path.join(vlib.SPEC, "polschedules", "*.json"))):
+        scheds += json.load(open(f))
+    if not scheds:
+        return
+    sf = run.path("polschedules.json")
+    json.dump(scheds, open(sf, "w"))
+    binp = run.build("poldrive")
+    out = run.path("polsched.ndjson")
+    p = subprocess.run([binp, "-schedules", sf, "-out", out], stdout=subprocess.PIPE, stderr=subprocess.STDOUT, text=True, timeout=600)
+    if p.returncode != 0:
+        if "panic:" in p.stdout and "/repo/pkg/policy" in p.stdout:
+            run.add_violation("NoPanic", "the policy manager panicked while replaying a model behaviour", {"property": pid, "output": p.stdout[-3000:]}, {"prop": "NoPanic", "tag": ""})
+            return
+        raise vlib.Machinery("poldrive -schedules failed (rc %d):\n%s" % (p.returncode, p.stdout[-2000:]))
+    rep = run.validate_traces("Trace_NetPol", "trace_netpol.cfg", out, timeout=1200)
+    judge(run, pid, out, rep)
+    run.coverage["traces_validated_against_impl"] += rep["stats"]["traces"]
+    run.coverage["evaluations"] += rep["stats"]["events"]
+    run.coverage["model_behaviours_replayed"] = {"n": len(scheds), "ends_in": [s.get("violates") for s in scheds],
+                                                 "steps_conforming": rep["stats"].get("conform", 0), "steps_judged": rep["stats"].get("judged", 0)}
+
+
 def policy_check(run, pid):
     quick = run.tier == "quick"
     run.level = "model_checking"
@@ -52,6 +101,7 @@ def policy_check(run, pid):
     # the three-phase synchronisation proposed as the repair of P1/P2 is always exact
     for cfg in ["polmgr_q.cfg", "polmgr_repaired.cfg"]:
         run.model_check("MC_PolicyManager", cfg, timeout=3400)
+    replay_model_behaviours(run, pid)
     plan = [(60, 12, run.seed)] if quick else [(150, 14, run.seed * 1000 + k) for k in range(4)]
     syncs = flows = 0
     nontriv = set()
@@ -63,24 +113,7 @@ def policy_check(run, pid):
                                "how": "harness/cmd/poldrive -seed %d -n %d -len %d" % (seed, n, length)}, {"prop": "NoPanic", "tag": ""})
             continue
         rep = run.validate_traces("Trace_NetPol", "trace_netpol.cfg", tf, timeout=3400)
-        seen = set()
-        for v in sorted(rep["viol"], key=lambda v: (v["trace"], v["line"])):
-            if v["prop"] not in PROPS[pid]:
-                continue
-            key = (v["prop"], v["tag"], v["trace"])
-            if key in seen:
-                continue
-            seen.add(key)
-            tr = trace_of(tf, v["trace"])
-            first = next(j for j, l in enumerate(open(tf)) if '"ev":"Reset"' in l and json.loads(l)["trace"] == v["trace"])
-            sig = {"prop": v["prop"], "tag": v["tag"], "layer": "policy"}
-            run.add_violation(v["prop"], "trace %d line %d%s: %s" % (v["trace"], v["line"], (" [" + v["tag"] + "]") if v["tag"] else "", json.dumps(v["detail"])[:200]),
-                              {"property": pid, "predicate": v["prop"], "tag": v["tag"], "detail": v["detail"], "line_in_trace": v["line"] - first,
-                               "history": compact(tr[: v["line"] - first]), "trace": tr[: v["line"] - first],
-                               "how": "recorded from the real pkg/policy PolicyManager by harness/cmd/poldrive over the strict kernel model; "
-                                      "re-validate with lib/tv.sh Trace_NetPol trace_netpol.cfg <file with the `trace` lines>"}, sig)
-        for d in rep["div"]:
-            run.divergences.append({"layer": "policy", "trace": d["trace"], "line": d["line"], "ev": d["ev"], "obj": d.get("obj"), "why": d.get("why")})
+        judge(run, pid, tf, rep)
         st = rep["stats"]
         run.coverage.setdefault("steps_conforming_to_PolicyManager", 0)
         run.coverage["steps_conforming_to_PolicyManager"] += st.get("conform", 0)
